@@ -205,45 +205,46 @@ theorem fp_plain {rest : Fields} {cs : PSpec} {incl : Bool} {k : String} {v : Va
 
 mutual
   theorem fpVal_sub : ∀ (v : Val) (cs : PSpec) (incl : Bool) (w : Val),
-      fpVal v cs incl = .ok w → sub w v = true
+      fpVal v cs incl = .ok (some w) → sub w v = true
     | .doc fs, cs, incl, w, h => by
       simp only [fpVal] at h
-      obtain ⟨_, _, h⟩ := bind_ok h
       obtain ⟨o, h2, h⟩ := bind_ok h
-      have := pure_ok h; subst this
+      have := pure_ok h; cases this
       exact (sub_doc_iff _ _).mpr (fpFields_sub fs cs incl o h2)
-    | .arr _, cs, incl, w, h => by
+    | .arr zs, cs, incl, w, h => by
       simp only [fpVal] at h
-      obtain ⟨_, _, h⟩ := bind_ok h
-      cases h
+      obtain ⟨o, h2, h⟩ := bind_ok h
+      have := pure_ok h; cases this
+      simp only [sub]
+      exact fpList_sub zs cs incl o h2
     | .null, cs, incl, w, h => by
       simp only [fpVal] at h
-      obtain ⟨_, _, h⟩ := bind_ok h
-      cases h
+      cases incl <;> simp at h
+      subst h; exact sub_refl _
     | .bool _, cs, incl, w, h => by
       simp only [fpVal] at h
-      obtain ⟨_, _, h⟩ := bind_ok h
-      cases h
+      cases incl <;> simp at h
+      subst h; exact sub_refl _
     | .int _, cs, incl, w, h => by
       simp only [fpVal] at h
-      obtain ⟨_, _, h⟩ := bind_ok h
-      cases h
+      cases incl <;> simp at h
+      subst h; exact sub_refl _
     | .dbl _ _, cs, incl, w, h => by
       simp only [fpVal] at h
-      obtain ⟨_, _, h⟩ := bind_ok h
-      cases h
+      cases incl <;> simp at h
+      subst h; exact sub_refl _
     | .str _, cs, incl, w, h => by
       simp only [fpVal] at h
-      obtain ⟨_, _, h⟩ := bind_ok h
-      cases h
+      cases incl <;> simp at h
+      subst h; exact sub_refl _
     | .date _ _, cs, incl, w, h => by
       simp only [fpVal] at h
-      obtain ⟨_, _, h⟩ := bind_ok h
-      cases h
+      cases incl <;> simp at h
+      subst h; exact sub_refl _
     | .oid _, cs, incl, w, h => by
       simp only [fpVal] at h
-      obtain ⟨_, _, h⟩ := bind_ok h
-      cases h
+      cases incl <;> simp at h
+      subst h; exact sub_refl _
   theorem fpFields_sub : ∀ (fs : Fields) (cs : PSpec) (incl : Bool) (o : Fields),
       fpFields fs cs incl = .ok o → SubF o fs
     | [], cs, incl, o, h => by
@@ -252,7 +253,8 @@ mutual
     | (k, .arr xs) :: rest, cs, incl, o, h => by
       simp only [fpFields] at h
       split at h
-      · obtain ⟨ys, h1, h⟩ := bind_ok h
+      · obtain ⟨_, _, h⟩ := bind_ok h
+        obtain ⟨ys, h1, h⟩ := bind_ok h
         obtain ⟨r, h2, h⟩ := bind_ok h
         have := pure_ok h; subst this
         refine subF_keep (fpFields_sub rest cs incl r h2) ?_
@@ -274,43 +276,43 @@ mutual
     | (k, .null) :: rest, cs, incl, o, h => by
       simp only [fpFields] at h
       split at h
-      · exact subF_skip _ (fpFields_sub rest cs incl o h)
+      · exact (fp_plain (fpFields_sub rest cs incl)).2 h
       · exact (fp_plain (fpFields_sub rest cs incl)).1 h
       · exact (fp_plain (fpFields_sub rest cs incl)).2 h
     | (k, .bool _) :: rest, cs, incl, o, h => by
       simp only [fpFields] at h
       split at h
-      · exact subF_skip _ (fpFields_sub rest cs incl o h)
+      · exact (fp_plain (fpFields_sub rest cs incl)).2 h
       · exact (fp_plain (fpFields_sub rest cs incl)).1 h
       · exact (fp_plain (fpFields_sub rest cs incl)).2 h
     | (k, .int _) :: rest, cs, incl, o, h => by
       simp only [fpFields] at h
       split at h
-      · exact subF_skip _ (fpFields_sub rest cs incl o h)
+      · exact (fp_plain (fpFields_sub rest cs incl)).2 h
       · exact (fp_plain (fpFields_sub rest cs incl)).1 h
       · exact (fp_plain (fpFields_sub rest cs incl)).2 h
     | (k, .dbl _ _) :: rest, cs, incl, o, h => by
       simp only [fpFields] at h
       split at h
-      · exact subF_skip _ (fpFields_sub rest cs incl o h)
+      · exact (fp_plain (fpFields_sub rest cs incl)).2 h
       · exact (fp_plain (fpFields_sub rest cs incl)).1 h
       · exact (fp_plain (fpFields_sub rest cs incl)).2 h
     | (k, .str _) :: rest, cs, incl, o, h => by
       simp only [fpFields] at h
       split at h
-      · exact subF_skip _ (fpFields_sub rest cs incl o h)
+      · exact (fp_plain (fpFields_sub rest cs incl)).2 h
       · exact (fp_plain (fpFields_sub rest cs incl)).1 h
       · exact (fp_plain (fpFields_sub rest cs incl)).2 h
     | (k, .date _ _) :: rest, cs, incl, o, h => by
       simp only [fpFields] at h
       split at h
-      · exact subF_skip _ (fpFields_sub rest cs incl o h)
+      · exact (fp_plain (fpFields_sub rest cs incl)).2 h
       · exact (fp_plain (fpFields_sub rest cs incl)).1 h
       · exact (fp_plain (fpFields_sub rest cs incl)).2 h
     | (k, .oid _) :: rest, cs, incl, o, h => by
       simp only [fpFields] at h
       split at h
-      · exact subF_skip _ (fpFields_sub rest cs incl o h)
+      · exact (fp_plain (fpFields_sub rest cs incl)).2 h
       · exact (fp_plain (fpFields_sub rest cs incl)).1 h
       · exact (fp_plain (fpFields_sub rest cs incl)).2 h
   theorem fpList_sub : ∀ (xs : List Val) (cs : PSpec) (incl : Bool) (ys : List Val),
@@ -323,7 +325,9 @@ mutual
       obtain ⟨y, h1, h⟩ := bind_ok h
       obtain ⟨ys', h2, h⟩ := bind_ok h
       have := pure_ok h; subst this
-      exact subList_take (fpVal_sub x cs incl y h1) (fpList_sub xs cs incl ys' h2)
+      cases y with
+      | some y => exact subList_take (fpVal_sub x cs incl y h1) (fpList_sub xs cs incl ys' h2)
+      | none => exact subList_skip x (fpList_sub xs cs incl ys' h2)
 end
 
 /-! ### operators and the whole of `_copy_only_fields` -/
@@ -337,8 +341,11 @@ theorem sliceOp_sublist {sv : Val} {xs ys : List Val} (h : sliceOp sv xs = .ok y
   unfold sliceOp at h
   split at h
   · split at h
-    · cases h; exact pySlice_sublist _ _ _
     · cases h
+    · cases h
+    · split at h
+      · cases h; exact pySlice_sublist _ _ _
+      · cases h
   · cases h
   · split at h
     · split at h <;> (cases h; exact pySlice_sublist _ _ _)
@@ -425,7 +432,8 @@ theorem applyOps_sub {doc : Fields} : ∀ {ops dc dc' : Fields},
   | (_, .oid _) :: _, _, _, _, ho => by simp [applyProjOps, unmodelled] at ho
   | (_, .arr _) :: _, _, _, _, ho => by simp [applyProjOps, unmodelled] at ho
 
-theorem baseCopy_sub {doc plain dc : Fields} {idv : Val} (h : baseCopy doc plain idv = .ok dc) :
+theorem baseCopy_sub {doc plain dc : Fields} {idv : Val} {ka : Bool}
+    (h : baseCopy doc plain idv ka = .ok dc) :
     SubF dc doc := by
   unfold baseCopy at h
   obtain ⟨mixed, hm, h⟩ := bind_ok h
